@@ -348,6 +348,40 @@ static void mutate(struct json_object *n)
 	}
 }
 static sb_t ds1, ds2, ds3;
+/* second kind of mutation: removal (members and elements are released, keys freed) */
+static void mutate_remove(struct json_object *n)
+{
+	if (json_object_is_type(n, json_type_array))
+	{
+		if (json_object_array_length(n))
+			json_object_array_del_idx(n, 0, 1);
+	}
+	else if (json_object_is_type(n, json_type_object))
+	{
+		char first[64] = "";
+		json_object_object_foreach(n, k, v)
+		{
+			(void)v;
+			snprintf(first, sizeof first, "%s", k);
+			break;
+		}
+		if (json_object_object_length(n))
+			json_object_object_del(n, first);
+	}
+	else
+		mutate(n);
+}
+/* how to build a brand-new tree equal to the source under test (its own nodes, its own key storage) */
+static int fresh_desc = -1;
+static const char *fresh_doc;
+static struct json_object *fresh_source(void)
+{
+	if (fresh_doc)
+		return json_tokener_parse(fresh_doc);
+	if (fresh_desc >= 0)
+		return desc_build(fresh_desc);
+	return NULL;
+}
 static void check_copy_of(struct json_object *src, int nanfree)
 {
 	struct json_object *cp = NULL;
@@ -397,6 +431,7 @@ static void check_copy_of(struct json_object *src, int nanfree)
 		n2 = 0;
 		collect(cp, nc, &n2);
 		mutate(nc[pos]);
+		mutate_remove(nc[pos]);
 		sb_reset(&ds3);
 		vf_dump(src, &ds3, DUMP_SER);
 		if (strcmp(sb_str(&ds1), sb_str(&ds3)))
@@ -410,6 +445,7 @@ static void check_copy_of(struct json_object *src, int nanfree)
 		struct json_object *n2s[64];
 		collect(s2, n2s, &n3);
 		mutate(n2s[pos]);
+		mutate_remove(n2s[pos]);
 		sb_reset(&ds3);
 		vf_dump(c2, &ds3, DUMP_SER);
 		if (strcmp(sb_str(&ds1), sb_str(&ds3)))
@@ -422,6 +458,52 @@ static void check_copy_of(struct json_object *src, int nanfree)
 			mc_violation("destroying-source-changes-copy", "after destroying the source the copy dumps as %.150s", sb_str(&ds3));
 		json_object_put(c2);
 		MC_COUNT("calls", 3);
+	}
+	/* a source that owns all of its storage (not itself a copy): empty it member by member, then
+	 * destroy it, let the allocator reuse the blocks - the copy must not notice */
+	if (fresh_doc || fresh_desc >= 0)
+	{
+		struct json_object *f = fresh_source(), *c = NULL;
+		json_object_deep_copy(f, &c, NULL);
+		struct json_object *fn[64];
+		int nf = 0;
+		collect(f, fn, &nf);
+		for (int pos = nf - 1; pos >= 0; pos--)
+		{
+			/* bottom-up, so that every container is emptied while it is still reachable */
+			while ((json_object_is_type(fn[pos], json_type_object) && json_object_object_length(fn[pos])) ||
+			       (json_object_is_type(fn[pos], json_type_array) && json_object_array_length(fn[pos])))
+				mutate_remove(fn[pos]);
+		}
+		sb_reset(&ds3);
+		vf_dump(c, &ds3, DUMP_SER);
+		if (strcmp(sb_str(&ds1), sb_str(&ds3)))
+			mc_violation("mutating-source-changes-copy", "after removing every member of the source the copy dumps as %.150s (was %.150s)", sb_str(&ds3), sb_str(&ds1));
+		json_object_put(f);
+		void *junk[8];
+		for (int k = 0; k < 8; k++)
+		{
+			junk[k] = vf_malloc((size_t)(2 + k * 6));
+			memset(junk[k], 'J', (size_t)(2 + k * 6));
+		}
+		sb_reset(&ds3);
+		vf_dump(c, &ds3, DUMP_SER);
+		if (strcmp(sb_str(&ds1), sb_str(&ds3)))
+			mc_violation("destroying-source-changes-copy", "after destroying the source the copy dumps as %.150s (was %.150s)", sb_str(&ds3), sb_str(&ds1));
+		for (int k = 0; k < 8; k++)
+			vf_free(junk[k]);
+		json_object_put(c);
+		/* and the other way round: destroy the copy first, the source stays intact */
+		f = fresh_source();
+		c = NULL;
+		json_object_deep_copy(f, &c, NULL);
+		json_object_put(c);
+		sb_reset(&ds3);
+		vf_dump(f, &ds3, DUMP_SER);
+		if (strcmp(sb_str(&ds1), sb_str(&ds3)))
+			mc_violation("destroying-copy-changes-source", "after destroying the copy the source dumps as %.150s (was %.150s)", sb_str(&ds3), sb_str(&ds1));
+		json_object_put(f);
+		MC_COUNT("calls", 2);
 	}
 }
 static unsigned char TXT[256];
@@ -441,7 +523,10 @@ static void fam_copy(void)
 		vf_dump(EO[i], &ds3, DUMP_SER);
 		(void)json_object_to_json_string(EO[i]);
 		long live0 = vf_live();
+		fresh_desc = i; /* family member i was built from descriptor i */
+		fresh_doc = NULL;
 		check_copy_of(EO[i], !has_nan[i]);
+		fresh_desc = -1;
 		if (vf_live() != live0)
 		{
 			mc_violation("leak", "%ld blocks leaked by the deep-copy probes", vf_live() - live0);
@@ -463,7 +548,9 @@ static void fam_copy(void)
 			continue;
 		long live0 = vf_live();
 		struct json_object *o = json_tokener_parse(docs[i]);
+		fresh_doc = docs[i];
 		check_copy_of(o, 1);
+		fresh_doc = NULL;
 		json_object_put(o);
 		if (vf_live() != live0)
 		{
